@@ -34,10 +34,55 @@ func C14(c *Ctx) {
 	r.Rule("C14/R2", "read-modify-write of a durable key is atomic w.r.t. every other goroutine root", 3)
 	r.Rule("C14/R3", "load-round/apply/save-round sequences are serialised across roots", 1)
 	r.Rule("C14/R4", "state reset excludes concurrent message handling", 1)
+	r.Rule("C14/R5", "the poller takes its position from the durable state at every tick (an API reset or offset change takes effect)", 1)
 	c14Lockset(c)
 	roots := c14Roots(c)
 	c14RMW(c, roots)
 	c14Instance(c, roots)
+	c14PollerStateless(c)
+}
+
+// c14PollerStateless — R5: what the API changes (state reset, saved offset) must take effect for the running poller:
+// the offset handed to GetMessages is exactly the value LoadOffset returned in the same tick, not a copy carried over
+// from an earlier iteration.
+func c14PollerStateless(c *Ctx) {
+	r := c.R
+	fn := c.Fn("C14/R5", pkgNode, "BaseNodeService", "Poll")
+	if fn == nil {
+		return
+	}
+	byName := func(name string) []ssa.CallInstruction {
+		return ssax.Calls(fn, false, func(ci ssa.CallInstruction) bool { o := ssax.CalleeObj(ci); return o != nil && o.Name() == name })
+	}
+	loads, gets := byName("LoadOffset"), byName("GetMessages")
+	if len(loads) != 1 || len(gets) != 1 {
+		r.Unknown("C14/R5", "node.Poll:position", "Poll loads the offset and fetches from it", c.Pos(fn.Pos()), sprintf("LoadOffset=%d GetMessages=%d", len(loads), len(gets)))
+		return
+	}
+	arg := gets[0].Common().Args[len(gets[0].Common().Args)-1]
+	ok := ssax.ResultOf(ssax.Resolve(arg), loads[0], 0) || ssax.ResultOf(arg, loads[0], 0)
+	r.Check(ok, "C14/R5", "node.Poll:position", "GetMessages is given exactly the offset LoadOffset returned in this tick", c.PosOf(gets[0].(ssa.Instruction)),
+		"the fetch position is "+npath(arg)+": a value carried across ticks (or adjusted) hides a state reset / saved offset made through the API from the running poller")
+	// the state handle is fetched per use (getState under its lock), not cached in a local across ticks
+	recv := ""
+	if loads[0].Common().IsInvoke() {
+		recv = npath(loads[0].Common().Value)
+	} else if len(loads[0].Common().Args) > 0 {
+		recv = npath(loads[0].Common().Args[0])
+	}
+	perTick := false
+	if loads[0].Common().IsInvoke() {
+		if hc, ok := ssax.Resolve(loads[0].Common().Value).(*ssa.Call); ok {
+			// the call that yields the handle runs inside the loop: it is reachable from the select statement
+			ssax.Instrs(fn, func(in ssa.Instruction) {
+				if _, isSel := in.(*ssa.Select); isSel && ssax.ReachableFrom(fn, in, hc, nil, nil) {
+					perTick = true
+				}
+			})
+		}
+	}
+	r.Check(perTick && strings.Contains(recv, "getState()") && !strings.Contains(recv, "phi("), "C14/R5", "node.Poll:state-handle", "the state handle is re-read for every use", c.PosOf(loads[0].(ssa.Instruction)),
+		"LoadOffset is called on "+recv+" instead of s.getState(): a handle cached across ticks survives a reset")
 }
 
 // lockCalls returns the Lock/RLock calls of fn on the mutex `mutex` of the receiver (embedded: mutex == "Mutex").
@@ -354,6 +399,11 @@ func rmwMutex(s rmwSite) string {
 			}
 		})
 		if !released {
+			// the lock must be one fixed mutex of the receiver: a lock looked up per argument (a map of locks keyed by the
+			// round, a lock returned by a helper) does not exclude a read-modify-write of the same blob under another key
+			if strings.ContainsAny(mp, "([") {
+				return
+			}
 			found = mp[strings.Index(mp, ".")+1:]
 		}
 	})
@@ -377,7 +427,10 @@ func c14Instance(c *Ctx, roots map[string][]*ssa.Function) {
 		if fn == nil {
 			continue
 		}
-		loads := ssax.Calls(fn, false, func(ci ssa.CallInstruction) bool { o := ssax.CalleeObj(ci); return o != nil && o.Name() == "GetFSMInstance" })
+		loads := ssax.Calls(fn, false, func(ci ssa.CallInstruction) bool {
+			o := ssax.CalleeObj(ci)
+			return o != nil && o.Name() == "GetFSMInstance"
+		})
 		saves := ssax.Calls(fn, false, func(ci ssa.CallInstruction) bool { o := ssax.CalleeObj(ci); return o != nil && o.Name() == "SaveFSM" })
 		if len(loads) > 0 && len(saves) > 0 {
 			kinds := c.rootKindsReaching(fn, roots)
